@@ -174,6 +174,24 @@ def cases(tier, seed):
                                                     "n": n, "neig": neig, "mode": mode, "spectrum": spec,
                                                     "param": param, "dtype": d, "order": order, "batch": "-",
                                                     "plane": 0, "basis": basis})
+    # ---- an operator whose first declared parameter does not require grad while a later one does
+    for n in ((3, 6) if not thorough else (2, 3, 5, 6)):
+        for spec in ("sep", "deg2"):
+            lam = spectrum(spec, n)
+            for mode in ("lowest", "uppest"):
+                for neig in boundary_neigs(lam, mode, 0.0):
+                    for (m, b, d) in grid:
+                        if m == "exacteig" or b not in ("exactsolve", "cg", "default"):
+                            continue
+                        if not _combo_ok(thorough, m, b, "mfree", n):
+                            continue
+                        for M in (0, 1):
+                            for order in (1, 2):
+                                out.append({"fam": "symeig", "method": m, "bck": b, "M": M, "opkind": "mfree_nd",
+                                            "n": n, "neig": neig, "mode": mode, "spectrum": spec, "param": "P1",
+                                            "dtype": d, "order": order, "batch": "-", "plane": 0})
+    # ---- batch
+    for n in ([3] if not thorough else [3, 5]):
         for batch in ("2|", "|2"):
             for spec in ("sep", "deg2", "mix2"):
                 if spec == "mix2" and batch != "2|":
